@@ -30,9 +30,9 @@ func (r *rng) bytes(n int) []byte {
 	}
 	return b
 }
-func (r *rng) coin(num, den int) bool { return r.intn(den) < num }
+func (r *rng) coin(num, den int) bool   { return r.intn(den) < num }
 func (r *rng) pick(xs ...string) string { return xs[r.intn(len(xs))] }
-func (r *rng) fork() *rng                { return &rng{s: r.next()} }
+func (r *rng) fork() *rng               { return &rng{s: r.next()} }
 
 func hx(b []byte) string {
 	if len(b) == 0 {
